@@ -13,6 +13,10 @@ Acts(s) ==
     \cup UNION {{[name |-> "Execute", op |-> o, target |-> t, fn |-> f, arg |-> g, auth |-> au] :
             t \in {"p1", "p2"}, f \in {"echo", "boom"}, g \in {"u32", "str", "vec", "unit"},
             au \in {{o}, {s.owner}, {}}} : o \in Ops}
+    \* a target that fails with a contract error instead of trapping (code 2 is also one of the operators contract's
+    \* own error codes, code 7 is not)
+    \cup UNION {{[name |-> "Execute", op |-> o, target |-> "p1", fn |-> f, arg |-> "unit", auth |-> au] :
+            f \in {"fail2", "fail7"}, au \in {{o}, {}}} : o \in Ops}
     \* the operator's authorisation entry carries only the forwarded argument list (not the target or the
     \* function): that is not an authorisation of THIS call
     \cup {[name |-> "Execute", op |-> o, target |-> t, fn |-> "echo", arg |-> g, auth |-> {}, scoped |-> {o}] :
